@@ -12,7 +12,7 @@ struct Piece { int len = 1, pause = 0; };
 struct Fault { int fn = 0, k = 0, err = 0; };
 struct TaskCase {
   int dir = 0, handler = 0, buf_size = 64, win_off = 0, win_len = 64, used0 = 0, ev_flags = 0, after_every_read = 0, timeout_ms = 0,
-      start_ex_direct = 0, prequeue = 0, end = 1, cb_policy = 0, rearm = 0, sndbuf = 0, close_on_destroy = 0, bad_window = 0;
+      start_ex_direct = 0, prequeue = 0, end = 1, cb_policy = 0, rearm = 0, sndbuf = 0, close_on_destroy = 0, bad_window = 0, inject_on_recv = 0;
   std::vector<Piece> pieces;
   Bytes plan;
   std::vector<Fault> faults;
@@ -20,7 +20,7 @@ struct TaskCase {
     Writer w;
     w.i("dir", dir).i("handler", handler).i("buf_size", buf_size).i("win_off", win_off).i("win_len", win_len).i("used0", used0)
         .i("ev_flags", ev_flags).i("after_every_read", after_every_read).i("timeout_ms", timeout_ms).i("start_ex_direct", start_ex_direct)
-        .i("prequeue", prequeue).i("end", end).i("cb_policy", cb_policy).i("rearm", rearm).i("sndbuf", sndbuf).i("close_on_destroy", close_on_destroy).i("bad_window", bad_window);
+        .i("prequeue", prequeue).i("end", end).i("cb_policy", cb_policy).i("rearm", rearm).i("sndbuf", sndbuf).i("close_on_destroy", close_on_destroy).i("bad_window", bad_window).i("inject_on_recv", inject_on_recv);
     std::vector<long long> v;
     for (auto &p : pieces) { v.push_back(p.len); v.push_back(p.pause); }
     w.iv("pieces", v);
@@ -36,7 +36,7 @@ struct TaskCase {
     c.dir = (int)r.i("dir"); c.handler = (int)r.i("handler"); c.buf_size = (int)r.i("buf_size", 64); c.win_off = (int)r.i("win_off");
     c.win_len = (int)r.i("win_len", 64); c.used0 = (int)r.i("used0"); c.ev_flags = (int)r.i("ev_flags"); c.after_every_read = (int)r.i("after_every_read");
     c.timeout_ms = (int)r.i("timeout_ms"); c.start_ex_direct = (int)r.i("start_ex_direct"); c.prequeue = (int)r.i("prequeue"); c.end = (int)r.i("end", 1);
-    c.cb_policy = (int)r.i("cb_policy"); c.rearm = (int)r.i("rearm"); c.sndbuf = (int)r.i("sndbuf"); c.close_on_destroy = (int)r.i("close_on_destroy"); c.bad_window = (int)r.i("bad_window");
+    c.cb_policy = (int)r.i("cb_policy"); c.rearm = (int)r.i("rearm"); c.sndbuf = (int)r.i("sndbuf"); c.close_on_destroy = (int)r.i("close_on_destroy"); c.bad_window = (int)r.i("bad_window"); c.inject_on_recv = (int)r.i("inject_on_recv");
     auto v = r.iv("pieces");
     for (size_t j = 0; j + 2 <= v.size(); j += 2) c.pieces.push_back(Piece{(int)v[j], (int)v[j + 1]});
     c.plan = r.b("plan");
@@ -188,6 +188,7 @@ static Verdict evaluate(const TaskCase &c, const c16_out &o) {
   if (inj) { label("fault_injected"); nt = true; }
   if (c.start_ex_direct && o.ncb && o.cb[0].in_start) label("first_io_inside_start");
   if (c.close_on_destroy) label("close_on_destroy_with_second_descriptor");
+  if (c.inject_on_recv && c.dir == 0 && c.handler == 0) label("fragment_arrives_between_two_reads");
   if (c.ev_flags == 2) label("dispatch");
   if (rounds) label("window_rearmed");
   if (nt) nontrivial_cur();
@@ -206,7 +207,7 @@ static Verdict run_case(const TaskCase &c) {
     PBT_REQUIRE(c.win_off + c.win_len <= c.buf_size && c.win_len >= 1 && c.used0 <= c.buf_size, "harness: window outside the documented precondition");
   s->ev_flags = (uint8_t)c.ev_flags; s->after_every_read = (uint8_t)c.after_every_read; s->timeout_ms = (uint16_t)c.timeout_ms;
   s->start_ex_direct = (uint8_t)c.start_ex_direct; s->prequeue = (uint8_t)c.prequeue; s->end = (uint8_t)c.end;
-  s->cb_policy = (uint8_t)c.cb_policy; s->rearm = (uint8_t)c.rearm; s->sndbuf = (uint32_t)c.sndbuf; s->close_on_destroy = (uint8_t)c.close_on_destroy;
+  s->cb_policy = (uint8_t)c.cb_policy; s->rearm = (uint8_t)c.rearm; s->sndbuf = (uint32_t)c.sndbuf; s->close_on_destroy = (uint8_t)c.close_on_destroy; s->inject_on_recv = (uint8_t)(c.inject_on_recv && c.dir == 0 && c.handler == 0);
   s->npieces = (uint8_t)std::min<size_t>(c.pieces.size(), C16_MAX_PIECES);
   for (int i = 0; i < s->npieces; i++) { s->pieces[i].len = (uint16_t)std::max(1, std::min(2048, c.pieces[i].len)); s->pieces[i].pause = (uint8_t)c.pieces[i].pause; }
   s->plans.plan_len = (uint32_t)std::min<size_t>(c.plan.size(), TP_PLAN_MAX);
@@ -255,6 +256,11 @@ static rc::Gen<TaskCase> genCase() {
     // the task owns a dup() of the socket and closes it on destroy; the harness' descriptor keeps the open file description alive
     c.close_on_destroy = (c.handler == 0) ? *rc::gen::weightedElement<int>({{3, 0}, {1, 1}}) : 0;
     c.plan = *bytes_upto(12);
+    if (c.dir == 0 && c.handler == 0 && !slow && *range<int>(0, 4) == 0) {
+      // fragments that arrive between two reads of one handler run (written from inside the library's recv()): sizes around the window
+      c.inject_on_recv = 1; c.after_every_read = *rc::gen::element(0, 0, 1);
+      for (auto &p : c.pieces) { p.len = std::max(1, std::min(2048, *rc::gen::element(c.win_len / 3 + 1, c.win_len / 2 + 1, c.win_len * 2 / 3 + 1, c.win_len))); p.pause = 0; }
+    }
     if (c.handler == 0 && *range<int>(0, 19) == 0) {
       // a window that reaches past the end of the buffer (also one that starts past it): the direct first transfer must refuse it
       c.bad_window = 1; c.start_ex_direct = 1; c.cb_policy = 0; c.rearm = 0; c.close_on_destroy = 0;
